@@ -306,6 +306,39 @@ func famUnary(quick bool, types []fl.TInt) []*prog.Case {
 					}))
 				}
 			}
+			// the right operand as a literal (it has to take the target's type) on every kind of
+			// target place
+			for _, op := range []string{"+=", "-=", "*=", "/=", "%="} {
+				for _, lhs := range []string{"var", "field", "elem", "ref", "param"} {
+					op, lhs := op, lhs
+					out = append(out, mk(fmt.Sprintf("C01/unary/%s/%s-lit/%s/%s", t, opName[op[:1]]+"assign", lhs, vname(a, t)), func(k K) *fl.Program {
+						p := &fl.Program{}
+						lit := fl.L(t, 3)
+						var body []fl.Stmt
+						switch lhs {
+						case "var":
+							body = []fl.Stmt{&fl.Let{Name: "x", T: t, Init: fl.LB(t, a)}, &fl.OpAssign{Op: op, LHS: fl.V("x"), RHS: lit}, fl.P(fl.V("x"))}
+						case "field":
+							st := &fl.TStruct{Name: k.N("Acc"), Fields: []fl.Field{{"P", fl.I8}, {"V", t}, {"Q", fl.I8}}}
+							p.Structs = append(p.Structs, st)
+							body = []fl.Stmt{&fl.Let{Name: "s", Init: &fl.StructLit{T: st, Vals: []fl.Expr{fl.L(fl.I8, 1), fl.LB(t, a), fl.L(fl.I8, 2)}}},
+								&fl.OpAssign{Op: op, LHS: fl.F(fl.V("s"), "V"), RHS: lit}, fl.P(fl.F(fl.V("s"), "V")), fl.P(fl.F(fl.V("s"), "P")), fl.P(fl.F(fl.V("s"), "Q"))}
+						case "elem":
+							body = []fl.Stmt{&fl.Let{Name: "e", T: fl.TArr{N: 2, Elem: t}, Init: &fl.ArrLit{Elems: []fl.Expr{fl.LB(t, a), fl.L(t, 1)}}},
+								&fl.OpAssign{Op: op, LHS: fl.Ix(fl.V("e"), fl.L(fl.I32, 0)), RHS: lit}, fl.P(fl.Ix(fl.V("e"), fl.L(fl.I32, 0))), fl.P(fl.Ix(fl.V("e"), fl.L(fl.I32, 1)))}
+						case "ref":
+							body = []fl.Stmt{&fl.Let{Name: "x", T: t, Init: fl.LB(t, a)},
+								&fl.Block{Body: []fl.Stmt{&fl.Let{Name: "r", T: fl.TRef{Elem: t, Mut: true}, Init: &fl.Borrow{X: fl.V("x"), Mut: true}}, &fl.OpAssign{Op: op, LHS: fl.V("r"), RHS: lit}}},
+								fl.P(fl.V("x"))}
+						case "param":
+							p.Funcs = append(p.Funcs, &fl.Func{Name: k.N("upd"), Params: []fl.Param{{"v", t}}, Ret: t, Body: []fl.Stmt{&fl.OpAssign{Op: op, LHS: fl.V("v"), RHS: lit}, &fl.Return{X: fl.V("v")}}})
+							body = []fl.Stmt{fl.P(fl.C(k.N("upd"), fl.LB(t, a)))}
+						}
+						p.Funcs = append(p.Funcs, &fl.Func{Name: "main", Body: body})
+						return p
+					}))
+				}
+			}
 		}
 	}
 	return out
